@@ -44,6 +44,20 @@ func (h *holders) acquire(s *simrt.Sim, who string, e int, write bool) {
 	}
 }
 
+// request is called right before a lock call: probes for calls that certainly have to wait.
+func (h *holders) request(s *simrt.Sim, e int, write bool) {
+	switch {
+	case write && h.writer[e] != "":
+		s.Probe("write-requested-while-writer-holds")
+	case write && h.readers[e] > 0:
+		s.Probe("write-requested-while-readers-hold")
+	case !write && h.writer[e] != "":
+		s.Probe("read-requested-while-writer-holds")
+	case !write && h.readers[e] > 0:
+		s.Probe("read-requested-while-readers-hold")
+	}
+}
+
 func (h *holders) release(e int, write bool) {
 	if write {
 		h.writer[e] = ""
@@ -70,6 +84,7 @@ func starving(s *simrt.Sim) {
 		s.Logf("script %s %v hold %v", name, ops, hold)
 		s.Go(name, func() {
 			for j, w := range ops {
+				h.request(s, 0, w)
 				if w {
 					m.Lock()
 				} else {
@@ -144,16 +159,24 @@ func dag(s *simrt.Sim) {
 				if sg.write {
 					// writers lock one entity at a time, ascending
 					for _, e := range sg.ents {
+						h.request(s, e, true)
 						m.Lock(e)
 						h.acquire(s, name, e, true)
 					}
 				} else if sg.multi {
+					for _, e := range sg.ents {
+						h.request(s, e, false)
+					}
+					if sg.dup {
+						s.Probe("multi-id-rlock-with-duplicate-id")
+					}
 					m.RLock(sg.ids()...)
 					for _, e := range sg.ids() {
 						h.acquire(s, name, e, false)
 					}
 				} else {
 					for _, e := range sg.ents {
+						h.request(s, e, false)
 						m.RLock(e)
 						h.acquire(s, name, e, false)
 					}
@@ -276,7 +299,13 @@ func misuse(s *simrt.Sim) {
 		got := map[string]bool{}
 		for _, e := range []int{1, 2, 3} {
 			e := e
-			s.Go(fmt.Sprintf("prober%d", e), func() { m.Lock(e); h.acquire(s, "prober", e, true); got[fmt.Sprint(e)] = true; h.release(e, true); m.Unlock(e) })
+			s.Go(fmt.Sprintf("prober%d", e), func() {
+				m.Lock(e)
+				h.acquire(s, "prober", e, true)
+				got[fmt.Sprint(e)] = true
+				h.release(e, true)
+				m.Unlock(e)
+			})
 		}
 		s.Quiesce()
 		if !got["2"] || !got["3"] {
@@ -344,6 +373,9 @@ func counterWaits(s *simrt.Sim) {
 		ws[i] = w
 		s.Go(fmt.Sprintf("waiter%d", i), func() {
 			w.inv = s.Tick()
+			if !holds(w, tl[len(tl)-1].val) {
+				s.Probe("counter-wait-invoked-while-condition-false")
+			}
 			switch w.kind {
 			case 0:
 				c.WaitIsZero()
@@ -384,6 +416,15 @@ func counterWaits(s *simrt.Sim) {
 		s.Fail("counter-model", "value", "Get()=%d but last notified value %d", c.Get(), final)
 	}
 	for i, w := range ws {
+		if !w.done {
+			s.Probe("counter-waiter-blocked-at-quiescence")
+			for _, ch := range tl {
+				if ch.step > w.inv && holds(w, ch.val) {
+					s.Probe("counter-condition-held-only-transiently")
+					break
+				}
+			}
+		}
 		if !w.done && holds(w, final) {
 			s.Fail("wait-liveness", fmt.Sprintf("counter-kind%d", w.kind), "waiter%d kind=%d thr=%d still blocked at quiescence although value=%d satisfies it", i, w.kind, w.thr, final)
 		}
@@ -479,6 +520,11 @@ func stackWaits(s *simrt.Sim) {
 				simrt.Yield()
 			}
 			stop = true
+			for _, w := range ws {
+				if w.kind == 3 && w.iv != nil && !w.done {
+					s.Probe("shutdown-signalled-while-poporwait-in-flight")
+				}
+			}
 			st.SignalShutdown()
 			signalled = true
 			s.Logf("wait condition turned off, SignalShutdown returned")
@@ -490,8 +536,12 @@ func stackWaits(s *simrt.Sim) {
 	size1 := st.Size()
 	for i, w := range ws {
 		if w.done {
+			if w.kind == 3 {
+				s.Probe("poporwait-returned")
+			}
 			continue
 		}
+		s.Probe(fmt.Sprintf("stack-waiter-kind%d-blocked-at-first-quiescence", w.kind))
 		sat := false
 		switch w.kind {
 		case 0:
